@@ -93,3 +93,44 @@ package expr
 //@   ensures count_update: result == current + 1
 //@ func init#1$8
 //@   ensures count_merge: result == current + next
+
+//@ func (*aggregate).Update
+//@   requires e != nil && e.update != nil && e.Wrapped != nil && len(b) >= 9 + e.Wrapped.EncodedWidth()
+//@   modifies b[0:9+e.Wrapped.EncodedWidth()]
+//@   capture wrappedUpdated Bool = result 2 of call Expr.Update
+//@   capture wrappedValue Real = result 1 of call Expr.Update
+//@   ensures updated_flag: result2 == wrappedUpdated
+//@   ensures applied: wrappedUpdated ==> b[0] == 1 && u64At(b, 1) == f2b(lastret(update, 0)) && calls(update) == old(calls(update)) + 1 && lastarg(update, 0) == (old(b[0]) == 1) && lastarg(update, 2) == wrappedValue && (old(b[0]) == 1 ==> lastarg(update, 1) == b2f(old(u64At(b, 1)))) && (old(b[0]) != 1 ==> lastarg(update, 1) == 0)
+//@   ensures untouched: !wrappedUpdated ==> forall j in 0..9 :: b[j] == old(b[j])
+//@   callback update modifies nothing
+//@   nopanic
+
+// ---- avg (AVG/WAVG): state = flag byte + count + total ----
+//@ func (*avg).load
+//@   requires len(b) >= 17
+//@   ensures flag: result2 == (b[0] == 1)
+//@   ensures val: (result2 ==> result0 == b2f(u64At(b, 1)) && result1 == b2f(u64At(b, 9))) && (!result2 ==> result0 == 0 && result1 == 0)
+//@   ensures remain: result3 == b[17:]
+//@   nopanic
+
+//@ func (*avg).save
+//@   requires len(b) >= 17
+//@   modifies b[0:17]
+//@   ensures stored: b[0] == 1 && u64At(b, 1) == f2b(count) && u64At(b, 9) == f2b(total)
+//@   ensures remain: result == b[17:]
+//@   nopanic
+
+// Merge of two averages adds counts and totals (ratios are recomputed from their components, never averaged - C06).
+//@ func (*avg).Merge
+//@   requires e != nil && len(b) >= 17 && len(x) >= 17 && len(y) >= 17
+//@   modifies b[0:17]
+//@   ensures remain: result0 == b[17:] && result1 == x[17:] && result2 == y[17:]
+//@   ensures only_y: old(x[0]) != 1 && old(y[0]) == 1 ==> b[0] == 1 && u64At(b, 1) == f2b(b2f(old(u64At(y, 1)))) && u64At(b, 9) == f2b(b2f(old(u64At(y, 9))))
+//@   ensures neither: old(x[0]) != 1 && old(y[0]) != 1 ==> forall j in 0..17 :: b[j] == old(b[j])
+//@   ensures only_x: old(x[0]) == 1 && old(y[0]) != 1 ==> b[0] == 1 && u64At(b, 1) == f2b(b2f(old(u64At(x, 1)))) && u64At(b, 9) == f2b(b2f(old(u64At(x, 9))))
+//@   ensures both: old(x[0]) == 1 && old(y[0]) == 1 ==> b[0] == 1 && u64At(b, 1) == f2b(b2f(old(u64At(x, 1))) + b2f(old(u64At(y, 1)))) && u64At(b, 9) == f2b(b2f(old(u64At(x, 9))) + b2f(old(u64At(y, 9))))
+//@   nopanic
+
+//@ func (*avg).calc
+//@   pure
+//@   ensures val: (count == 0 ==> result == 0) && (count != 0 ==> result * count == total)
